@@ -1,11 +1,12 @@
 #!/bin/bash
-# try_seed.sh <patch.diff> <ID> [<ID>...]  : apply the patch to /repo, run the quick checks, undo.
+# try_seed.sh <patch.diff> <ID> [<ID>...]  : apply the patch to /repo, run the quick checks, undo (always).
 patch="$1"; shift
-cd /repo && git apply "$patch" || { echo "patch does not apply"; exit 2; }
-if git diff --name-only | grep -q '^rust/'; then echo "(rust change)"; fi
+cd /repo || exit 2
+if [ -n "$(git status --porcelain --untracked-files=no)" ]; then echo "/repo is dirty, refusing"; exit 2; fi
+trap 'git -C /repo checkout -- . ; [ -f /tmp/vt_orig_so ] && { cp /tmp/vt_orig_so /repo/src/sedpack/_sedpack_rs.cpython-312-x86_64-linux-gnu.so.tmp && mv /repo/src/sedpack/_sedpack_rs.cpython-312-x86_64-linux-gnu.so.tmp /repo/src/sedpack/_sedpack_rs.cpython-312-x86_64-linux-gnu.so; rm -f /tmp/vt_orig_so; }' EXIT
+git apply "$patch" || { echo "patch does not apply"; exit 2; }
 cd /verif
 for id in "$@"; do
-  out=$(./vt check $id --tier ${TIER:-quick} 2>&1); rc=$?
+  out=$(timeout ${SEED_TIMEOUT:-1500} ./vt check $id --tier ${TIER:-quick} 2>&1); rc=$?
   echo "== $id exit=$rc"; echo "$out" | grep -E "VIOLATION|what:|HARNESS|INCONCLUSIVE|tier=" | head -8
 done
-git -C /repo checkout -- .
